@@ -64,10 +64,11 @@ def equivalent(utype, a, b):
 
 
 ACCESSORS = ["ham_new", "ham_assign", "faxis", "mol_new", "mol_set_energy", "mol_width", "mode_new", "mode_set_energy",
-             "agg_coupling", "agg_coupling_matrix", "cf_reorg", "sd_reorg", "length", "ham_rwa", "mol_adiabatic", "submode"]
+             "agg_coupling", "agg_coupling_matrix", "cf_reorg", "sd_reorg", "length", "ham_rwa", "mol_adiabatic", "submode", "ham_inplace"]
 LIBCALLS = ["agg_build", "agg_build_env", "agg_build_raises", "agg_rebuild", "get_Hamiltonian", "relaxation_tensor", "rate_matrix",
             "set_rwa", "time_to_frequency_axis", "frequency_to_time_axis", "thermal_state", "molecule_hamiltonian",
-            "cf_add", "sd_from_cf", "ft_cf", "abs_calculate", "propagate", "diagonalize", "convert"]
+            "cf_add", "sd_from_cf", "ft_cf", "abs_calculate", "propagate", "diagonalize", "convert",
+            "cf_underdamped_copy", "cf_underdamped_self_add", "cf_underdamped_inplace_self_add", "sd_underdamped_add"]
 
 
 class World:
@@ -83,7 +84,7 @@ class World:
                        "libcall_raises_inside_context", "fault_unwinds_2_levels", "post_fault_ops_executed",
                        "length_context", "frequency_context", "global_set_inside_context", "enforce_probe_inside",
                        "enforce_probe_outside", "mixed_energy_length_nesting", "context_object_reused",
-                       "context_object_reused_under_same_units", "failing_convert"]
+                       "context_object_reused_under_same_units", "failing_convert", "hamiltonian_modified_in_place_between_reads"]
     required_faults = ["F1_simfault", "F2_library_call_raises", "F3_unknown_unit"]
     components = {
         "real": ["Manager unit state and conversions", "energy_units / frequency_units / length_units", "set_current_units",
@@ -104,7 +105,7 @@ class World:
         "wavelength (nm) is not used for FrequencyAxis step/data (a linear axis in wavelength is not linear in energy)",
     ]
     rule = ("program = seeded list of enter/exit of energy/frequency/length units contexts (real nested `with`), set/get through "
-            "16 units-managed accessors over all 11 energy units, conversions, global set_current_units, 19 library calls and "
+            "16 units-managed accessors over all 11 energy units, conversions, global set_current_units, 23 library calls and "
             "faults (user exception, raising library call, unknown unit); thorough tier re-runs each sampled program with a user "
             "exception at every position; non-trivial = >=1 context and >=1 set/get/libcall inside it; distinct = distinct "
             "event-log digests among non-trivial runs")
@@ -500,6 +501,18 @@ class Runner:
                 E = numpy.array([[0.0, 0.0, 0.0], [0.0, e, e / 40.0], [0.0, e / 40.0, 1.2 * e]])
                 obj.data = from_internal(u, E)
                 store = E
+            elif name == "ham_inplace":
+                if u == "nm":
+                    self.ctx.ev(i, "set", name, "noop-nm")
+                    return
+                E = numpy.array([[0.0, 0.0, 0.0], [0.0, e, e / 50.0], [0.0, e / 50.0, 1.1 * e]])
+                obj = qr.Hamiltonian(data=from_internal(u, E))
+                first = numpy.array(obj.data)          # a read before the matrix is modified in place
+                obj.remove_cutoff_coupling(float(from_internal(u, e / 10.0)))
+                E = E.copy()
+                E[1, 2] = E[2, 1] = 0.0
+                store = E
+                self.ctx.probe("hamiltonian_modified_in_place_between_reads")
             elif name == "ham_rwa":
                 E = numpy.array([[0.0, 0.0, 0.0], [0.0, e, e / 50.0], [0.0, e / 50.0, 1.1 * e]])
                 obj = qr.Hamiltonian(data=from_internal(u, E))
@@ -586,7 +599,7 @@ class Runner:
                 got = self.m.convert_length_2_current_u(e)
                 exp = e / F_LENGTH[lu]
                 u = lu
-            elif name in ("ham_new", "ham_assign"):
+            elif name in ("ham_new", "ham_assign", "ham_inplace"):
                 got = numpy.array(obj.data)
                 exp = from_internal(u, e)
             elif name == "ham_rwa":
@@ -730,6 +743,24 @@ class Runner:
                 th = c1.get_SpectralDensity
             else:
                 th = c1.get_FTCorrelationFunction
+        elif name.startswith("cf_underdamped") or name == "sd_underdamped_add":
+            with qr.energy_units("1/cm"):
+                prm = dict(ftype="UnderdampedBrownian", reorg=20.0, freq=300.0, gamma=10.0, T=300)
+                if name == "sd_underdamped_add":
+                    c1 = qr.SpectralDensity(self.ta, prm)
+                    c2 = qr.SpectralDensity(self.ta, dict(ftype="OverdampedBrownian", reorg=10.0, cortime=50.0, T=300))
+                else:
+                    c1 = qr.CorrelationFunction(self.ta, prm)
+            if name == "cf_underdamped_copy":
+                th = c1.copy
+            elif name == "cf_underdamped_self_add":
+                th = lambda: c1 + c1
+            elif name == "cf_underdamped_inplace_self_add":
+                def th():
+                    x = c1
+                    x += x
+            else:
+                th = lambda: (c1 + c2) + c1
         elif name == "abs_calculate":
             a = self.built()
 
